@@ -20,7 +20,7 @@ type DiscoInfo struct {
 	Node      string     `xml:"node,attr,omitempty"`
 	Identity  []Identity `xml:"identity"`
 	Features  []Feature  `xml:"feature"`
-	ResultSet *ResultSet `xml:"set,omitempty"`
+	ResultSet *ResultSet `xml:"http://jabber.org/protocol/rsm set,omitempty"`
 }
 
 // Namespace lets DiscoInfo implement the IQPayload interface
@@ -109,7 +109,7 @@ type DiscoItems struct {
 	Items   []DiscoItem `xml:"item"`
 
 	// Result sets
-	ResultSet *ResultSet `xml:"set,omitempty"`
+	ResultSet *ResultSet `xml:"http://jabber.org/protocol/rsm set,omitempty"`
 }
 
 func (d *DiscoItems) Namespace() string {
